@@ -368,7 +368,7 @@ func init() {
 				add("nosync-k3", merge(base, p("k", 3, "ops", opPut|opDelete|opSync, "after", 1, "dfs_lo", 60, "dfs_hi", 120)))
 				add("always-k3-rot", merge(base, p("k", 3, "ops", opPut|opDelete, "sync", syncAlways, "vlens", 3, "vbig", 25, "dfs_lo", 60, "dfs_hi", 120)))
 				add("threshold-k3", merge(base, p("k", 3, "ops", opPut|opDelete|opSync, "sync", syncThreshold)))
-				add("batch-k3", merge(base, p("k", 3, "ops", opPut|opDelete|opBatch, "vlens", 1, "bsync", 1, "dfs_lo", 100, "dfs_hi", 180)))
+				add("batch-k2", merge(base, p("k", 2, "ops", opPut|opDelete|opBatch, "vlens", 1, "bsync", 1, "dfs_lo", 120, "dfs_hi", 160)))
 				add("btree-k3", merge(base, p("k", 3, "ops", opPut|opDelete|opSync, "index", 1, "shards", 2, "after", 1)))
 			}
 			js = append(js, JobSpec{Name: "witness", Harness: "root", Func: "verifHarnessCrash", Params: merge(base, p("k", 1, "ops", opPut, "witness", 1)), Scale: scaleDF(32), Witness: true})
@@ -409,8 +409,9 @@ func init() {
 				add("interrupted-batch-then-batch", merge(base, p("k", 1, "ops", opBatch, "bmax", 2, "after", 1, "afterbatch", 1, "powerloss", 0)))
 				add("batch-merge-restart", merge(base, p("k", 1, "ops", opBatch, "bmax", 2, "tailops", opMerge|opRestart, "after", 1, "powerloss", 0)))
 			} else {
-				add("overflow-bmax3-pre2", merge(base, p("preput", 2, "k", 1, "ops", opBatch, "bmax", 3, "dfs_lo", 100, "dfs_hi", 220, "after", 1, "vlens", 2)))
-				add("sync-batch-bmax3", merge(base, p("preput", 1, "k", 1, "ops", opBatch, "bmax", 3, "bsync", 1, "dfs_lo", 100, "dfs_hi", 200)))
+				add("overflow-bmax3-pre2", merge(base, p("preput", 2, "k", 1, "ops", opBatch, "bmax", 3, "dfs_lo", 120, "dfs_hi", 170, "after", 1, "powerloss", 0)))
+				add("overflow-bmax3-powerloss", merge(base, p("preput", 1, "k", 1, "ops", opBatch, "bmax", 3, "dfs_lo", 120, "dfs_hi", 150, "after", 1)))
+				add("sync-batch-bmax3", merge(base, p("preput", 1, "k", 1, "ops", opBatch, "bmax", 3, "bsync", 1, "dfs_lo", 120, "dfs_hi", 160)))
 				add("two-batches", merge(base, p("k", 2, "ops", opBatch, "bmax", 2, "after", 1, "afterbatch", 1)))
 				add("batch-put-merge-restart", merge(base, p("k", 2, "ops", opBatch|opPut, "bmax", 2, "tailops", opMerge|opRestart, "after", 1, "powerloss", 0, "crash2", 1)))
 				add("btree-overflow", merge(base, p("preput", 1, "k", 1, "ops", opBatch, "bmax", 3, "dfs_lo", 100, "dfs_hi", 200, "index", 1, "shards", 2)))
@@ -444,7 +445,7 @@ func init() {
 				add("k2-crashed-merge-then-merge", merge(base, p("k", 2, "ops", opPut, "dfs_lo", 60, "dfs_hi", 100, "crash2", 0, "aftermerge", 1, "tailops", opMerge)))
 			} else {
 				add("k3-rot", merge(base, p("k", 3, "ops", opPut|opDelete, "dfs_lo", 60, "dfs_hi", 130)))
-				add("k2-batch", merge(base, p("k", 2, "ops", opPut|opBatch, "bmax", 2, "dfs_lo", 60, "dfs_hi", 160)))
+				add("k2-batch", merge(base, p("k", 2, "ops", opPut|opBatch, "bmax", 1, "dfs_lo", 100, "dfs_hi", 150)))
 				add("k2-permute", merge(base, p("k", 2, "ops", opPut|opDelete, "vlens", 2, "dfs_lo", 60, "dfs_hi", 100, "permute", 1)))
 				add("k2-powerloss", merge(base, p("k", 2, "ops", opPut|opDelete, "dfs_lo", 60, "dfs_hi", 100, "powerloss", 1, "crash2", 0)))
 			}
